@@ -958,6 +958,7 @@ func runC13(c *Ctx) {
 	ruleMdiffPairs(c)
 	ruleSizeGuard(c, "mdiff")
 	ruleChunkLoopComplete(c)
+	ruleSidePairing(c)
 	ruleAllocBounded(c, "mdiff", false)
 
 	// ---- R-LR-MIRROR
